@@ -831,3 +831,67 @@ def shape_str(s):
     if isinstance(s, tuple):
         return f"{s[0]}(" + ", ".join(shape_str(x) for x in s[1:]) + ")"
     return s.rsplit("::", 1)[-1] if s.startswith("call:") else s
+
+
+def _body_reads_field(world, cb, field, depth=2, seen=None):
+    seen = seen if seen is not None else set()
+    if cb.id in seen:
+        return False
+    seen.add(cb.id)
+    for bb, i, s in cb.all_stmts():
+        r = s["r"]
+        pls = [op_place(o) for o in [r.get("o"), r.get("a"), r.get("b")] + list(r.get("ops", [])) if isinstance(o, dict)]
+        if isinstance(r.get("p"), dict):
+            pls.append(r["p"])
+        if any(pl and field in place_fields(pl) for pl in pls):
+            return True
+    if depth > 0:
+        for bb, t in cb.calls():
+            for cid in [t["f"]] + closure_args(cb, t):
+                nb = world.bodies.get(cid)
+                if nb is not None and _body_reads_field(world, nb, field, depth - 1, seen):
+                    return True
+    return False
+
+
+def field_read_blocks(world, body, op, field, into_callees=2):
+    """blocks of `body` at which `field` is read (directly, or inside a callee / closure invoked there) to produce the value of `op`
+    - the flow-sensitive companion of Slicer atoms: *where* the value was sampled, so that a test can be placed before or after a write"""
+    out, seen = set(), set()
+
+    def place(p, bb):
+        if field in place_fields(p):
+            out.add(bb)
+        local(p["l"])
+
+    def operand(o, bb):
+        p = op_place(o) if isinstance(o, dict) else None
+        if p is not None:
+            place(p, bb)
+
+    def local(l):
+        if l in seen:
+            return
+        seen.add(l)
+        for bb, idx, s in body.defs().get(l, []):
+            if idx == "term":
+                if s["k"] == "call":
+                    for cid in [s["f"]] + closure_args(body, s):
+                        cb = world.bodies.get(cid)
+                        if cb is not None and _body_reads_field(world, cb, field, into_callees):
+                            out.add(bb)
+                    for a in s["args"]:
+                        operand(a, bb)
+                continue
+            if "*" in (s["p"].get("p") or ()):
+                continue
+            r = s["r"]
+            for o in [r.get("o"), r.get("a"), r.get("b")] + list(r.get("ops", [])):
+                if isinstance(o, dict):
+                    operand(o, bb)
+            if isinstance(r.get("p"), dict):
+                place(r["p"], bb)
+
+    operand(op, None)
+    out.discard(None)
+    return out
